@@ -17,9 +17,9 @@ WATCHDOG = {"quick": 900, "thorough": 3000}
 
 
 def cases(ctx):
-    for i in range(ctx.pick(1500, 1000000)):
+    for i in range(ctx.pick(1500, 250000)):
         yield "queries", {"seed": ctx.subseed("q", i)}
-    for i in range(ctx.pick(1800, 1200000)):
+    for i in range(ctx.pick(1800, 300000)):
         yield "indicators", {"seed": ctx.subseed("i", i)}
 
 
@@ -70,6 +70,12 @@ def run_case(ctx, name, params):
                 res.goal_on_index(); res.pareto_front()
             except Exception:
                 pass
+            if r.random() < 0.4:
+                # the record is emptied and refilled in place (what read_from_datastore does when an archive is attached)
+                keep_ = list(p.individuals)
+                p.individuals.clear()
+                for i in keep_:
+                    p.individuals.append(i)
             for i in late:
                 p.individuals.append(i)
             if r.random() < 0.5:
